@@ -24,7 +24,7 @@ ASSUMPTIONS = [
     "any exception counts as 'reported as an error' here; exception types are judged in C14",
     "reference CRC = bit-serial LFSR (vlib.refcrc), reference AES = OpenSSL libcrypto",
 ]
-REQUIRED_CLASSES = ["len=0", "len=253", "crc.lo=00", "crc.hi=00", "crc=0000", "code-encryptor", "custkey", "neg.marker", "neg.crc", "neg.foreign-key",
+REQUIRED_CLASSES = ["len=0", "len=253", "crc.lo=00", "crc.hi=00", "crc=0000", "code-encryptor", "custkey", "custkey.key-bytes-also-outside-slot", "neg.marker", "neg.crc", "neg.foreign-key",
                     "payload.trailing00"]
 
 B2 = sut.B2
@@ -150,6 +150,8 @@ def enum_crcbytes(tier, shard, nshards, rng):
 
 def check_custkey(case, rec):
     rec.cls("custkey")
+    if case.get("constructed"):
+        rec.cls("custkey.key-bytes-also-outside-slot")
     rec.nt()
     key, ck, pos, payload = case["key"], case["customer_key"], case["pos"], case["payload"]
     e = B2.SoftwareCustKeyEncryptor(key, ck, pos)
@@ -183,6 +185,28 @@ def check_custkey(case, rec):
 def enum_custkey(tier, shard, nshards, rng):
     lens = (10, 11, 26, 40) if tier == "quick" else (10, 11, 12, 26, 27, 40, 100, 253)
     i = 0
+    # CONSTRUCTED: the payload contains the customer key's byte sequence ALSO outside its slot (a second copy before / after the
+    # slot, a constant-byte or periodic key continued by the neighbouring payload bytes): only the slot may be blanked
+    for n, pos, kind in ((40, 15, "copy-before"), (40, 5, "copy-after"), (30, 3, "run-before"), (30, 3, "run-after"), (44, 12, "periodic"), (20, 10, "copy-before"), (253, 100, "copy-after")):
+        i += 1
+        if i % nshards != shard:
+            continue
+        if kind.startswith("copy"):
+            ck = bytes(b | 1 for b in _rand(rng, 10))
+            payload = bytearray(_rand(rng, n))
+            other = 0 if kind == "copy-before" else n - 10
+            payload[other: other + 10] = ck
+        elif kind.startswith("run"):
+            ck = bytes([0xFF]) * 10
+            payload = bytearray(bytes(b & 0x7F for b in _rand(rng, n)))
+            if kind == "run-before":
+                payload[0:pos] = bytes([0xFF]) * pos
+            else:
+                payload[pos + 10: pos + 14] = bytes([0xFF]) * 4
+        else:
+            ck = bytes([0xA1, 0xB2]) * 5
+            payload = bytearray(bytes([0xA1, 0xB2]) * (n // 2))
+        yield dict(key=_rand(rng, 16), customer_key=ck, pos=pos, payload=bytes(payload), flip=rng.randrange(9), constructed=kind)
     for n in lens:
         for pos in range(0, n - 10 + 1):
             i += 1
